@@ -33,6 +33,7 @@ ASSUMPTIONS = common.BASE_ASSUMPTIONS + [
 REDUCIBLE = ['actions', 'objects']
 ALPHABET = 'ABCDEFGHIJKLMNOPQRSTUVWXYZabcdefghijklmnopqrstuvwxyz0123456789_./<>-'
 FINAL_WINDOW = 30.0
+_FLAT = str.maketrans({'/': '.', '<': '_', '>': '_'})
 
 
 def _gen_id(ch: Chooser, family: str) -> str:
@@ -81,6 +82,18 @@ def gen_plan(ch: Chooser, tier: str) -> dict[str, Any]:
                 sid += 'e'
             sub_ids.add(sid)
             sub['id'] = sid
+    # twins: two long ids of one cause that differ only in characters the key convention maps to the same one
+    # (a sub-handler path 'parent/volumes' next to a function registered as 'parent.volumes')
+    by_kind: dict[str, list[dict[str, Any]]] = {}
+    for h in op1['handlers']:
+        by_kind.setdefault(h['kind'], []).append(h)
+    pairs = [hs for hs in by_kind.values() if len(hs) >= 2]
+    if pairs and ch.bool(0.25):
+        h_a, h_b = ch.choice(pairs)[:2]
+        base = 'tw' + ''.join(ch.choice(ALPHABET[:62]) for _ in range(ch.int(56, 80)))
+        a_sep, b_sep = ch.choice([('/', '.'), ('<', '_'), ('>', '_'), ('/', '.')])
+        tail = ch.choice(['volumes', 'v', 'spec.field'])
+        h_a['id'], h_b['id'] = base + a_sep + tail, base + b_sep + tail
     st = ch.choice([None, {'progress': 'annotations'}, {'progress': 'annotations', 'v1': False},
                     {'progress': 'smart'}, {'progress': 'status', 'diffbase': 'status'},
                     {'progress': 'annotations', 'prefix': 'ops.example.com'},
@@ -190,6 +203,11 @@ def oracle(run: runner.Run, oc: Outcome) -> None:
             allspecs[h['id']] = h
             for sub in h.get('subs', []):
                 allspecs[f"{h['id']}/{sub['id']}"] = dict(sub, kind=h['kind'], opts=sub.get('opts', {}))
+        def _short_twin(hid: str) -> bool:
+            # another id of this operator that the key convention writes the same way, both too short to get a hash
+            flat = hid.translate(_FLAT)
+            return len(hid) <= 63 and any(x != hid and len(x) <= 63 and x.translate(_FLAT) == flat for x in allspecs)
+
         # 2. round trip: per cycle (delimited by the writes of the last-handled state) retry numbers count up and
         #    nothing runs after its final outcome
         for (o, uid), lst in steps_all.items():
@@ -210,12 +228,12 @@ def oracle(run: runner.Run, oc: Outcome) -> None:
                         exercised += 1
                     retries = [c.retry for c in cs]
                     if retries != list(range(len(retries))):
-                        oc.add('C16/round-trip', 'retry-numbers',
+                        oc.add('C16/round-trip', 'short-ids-equal-after-sanitising' if _short_twin(hid) else 'retry-numbers',
                                f"{opid}: handler {hid[:80]!r}(len {len(hid)}) of {uid}: retry numbers within one cycle are "
                                f"{retries}, expected 0,1,2,... (a record lost, or shared with another id)", uid=uid)
                     for a, b in zip(cs, cs[1:]):
                         if changes.final_outcome(a, h):
-                            oc.add('C16/round-trip', 'invoked-after-final',
+                            oc.add('C16/round-trip', 'short-ids-equal-after-sanitising' if _short_twin(hid) else 'invoked-after-final',
                                    f"{opid}: handler {hid[:80]!r}(len {len(hid)}) of {uid} was invoked again (#{b.n}) after "
                                    f"its final outcome {a.outcome!r} (#{a.n}) within one cycle", uid=uid)
                             break
@@ -286,7 +304,12 @@ def oracle(run: runner.Run, oc: Outcome) -> None:
                 prog = ((obj.get('status') or {}).get(st.name) or {}).get('progress') or {} \
                     if st.progress in ('status', 'smart', 'multi') else {}
                 if left or prog:
-                    oc.add('C16/purge', 'records-left',
+                    # leftovers of the sub-handlers of two short ids that are written under one name (one of the two is
+                    # taken for finished through the other's record, and its children are never looked at again)
+                    twins = [x.translate(_FLAT) for x in allspecs if _short_twin(x)]
+                    fam = bool(twins) and all(any(str(k).split('/', 1)[-1].startswith(tw[:40]) for tw in twins)
+                                              for k in list(left) + list(prog))
+                    oc.add('C16/purge', 'short-ids-equal-after-sanitising' if fam else 'records-left',
                            f"{opid}: at quiescence {obj['metadata']['name']} still carries {left[:4]} "
                            f"{'and status.' + st.name + '.progress=' + str(list(prog)[:3]) if prog else ''}", uid=obj['metadata']['uid'])
     # 5. the records of a ReplicaSet owned by a Deployment live under their own (marked) names, so that the
